@@ -395,6 +395,110 @@ def gen(rng, tier):
             yield "tmpl %s %s" % (tm, hx(base.enc()))
 
 
+def gen_values(rng, tier):
+    """value parsers at their boundaries (independent of the random tree generator)"""
+    # legacy ids: every value of the length octet, a non-zero octet at every position, every length 27..31
+    link = lambda lid: N(0x01, kids=[N(0x03, lid)], tm="KSI_HashChainLink")
+    for n in range(256):
+        b = bytes([3, 0, n]) + bytes(26)
+        yield "tmpl KSI_HashChainLink %s" % hx(link(b).enc())
+        k = min(n, 26)
+        b = bytes([3, 0, n]) + b"a" * k + bytes(26 - k)
+        yield "tmpl KSI_HashChainLink %s" % hx(link(b).enc())
+    for pos in range(29):
+        for n in (0, 4, 24, 25):
+            b = bytearray(bytes([3, 0, n]) + b"b" * n + bytes(26 - n))
+            b[pos] = (b[pos] + 1) & 0xff
+            yield "tmpl KSI_HashChainLink %s" % hx(link(bytes(b)).enc())
+    for ln in (0, 1, 2, 3, 27, 28, 30, 31, 64):
+        yield "tmpl KSI_HashChainLink %s" % hx(link(bytes([3, 0, 1, 0x61] + [0] * max(0, ln - 4))[:ln]).enc())
+    # integers: every length 0..10 with leading octet 0 / 1 / ff, all-zero strings
+    for ln in range(0, 11):
+        for lead in (0, 1, 0x80, 0xff):
+            for fill in (0, 0xff):
+                b = (bytes([lead]) + bytes([fill]) * (ln - 1)) if ln else b""
+                yield "tmpl KSI_ErrorPdu %s" % hx(N(0x01, kids=[N(0x04, b)], tm="KSI_ErrorPdu").enc())
+                yield "aggr 2 %s" % hx(N(0x221, kids=[N(0x01, kids=[N(0x01, b"anon\x00")], tm="KSI_Header"),
+                                                     N(0x03, kids=[N(0x04, b)], tm="KSI_ErrorPdu"),
+                                                     N(0x1f, bytes([1]) + bytes(32))], tm="KSI_AggregationRespPdu").enc())
+    # imprints: every algorithm id with digest lengths around the right one
+    for a in range(256):
+        want = DIGEST_LEN.get(a, 32)
+        for dl in sorted(set([0, 1, want - 1, want, want + 1, 64, 65])):
+            if dl < 0:
+                continue
+            b = bytes([a]) + rng.randbytes(dl)
+            yield "tmpl KSI_PublicationData %s" % hx(N(0x10, kids=[N(0x02, b"\x01"), N(0x04, b)], tm="KSI_PublicationData").enc())
+    yield "tmpl KSI_PublicationData %s" % hx(N(0x10, kids=[N(0x02, b"\x01"), N(0x04, b"")], tm="KSI_PublicationData").enc())
+    # strings: every lead octet followed by 0..4 continuation octets, then NUL; NUL placement
+    for lead in range(256):
+        for k in range(0, 5):
+            for contb in (0x80, 0xbf, 0x7f, 0xc0):
+                b = bytes([lead]) + bytes([contb]) * k + b"\x00"
+                yield "tmpl KSI_Header %s" % hx(N(0x01, kids=[N(0x01, b)], tm="KSI_Header").enc())
+                if lead % 16 == 0 and k == 1:
+                    yield "tmpl KSI_Header %s" % hx(N(0x01, kids=[N(0x01, b[:-1])], tm="KSI_Header").enc())
+    for b in (b"", b"\x00", b"\x00\x00", b"a\x00\x00", b"a", b"ab\x00c\x00", b"\x00a\x00"):
+        yield "tmpl KSI_Header %s" % hx(N(0x01, kids=[N(0x01, b)], tm="KSI_Header").enc())
+        yield "tmpl KSI_PublicationsHeader %s" % hx(N(0x701, kids=[N(0x01, b"\x01"), N(0x02, b"\x02"), N(0x03, b)], tm="KSI_PublicationsHeader").enc())
+
+
+def gen_positions(rng, tier):
+    """positional rules exhaustively on small containers: every permutation of the elements of a
+    v2 PDU / a publications file header section, an unknown element (critical or not) at every
+    position, a repetition of every element at every position"""
+    import itertools
+    hdr = N(0x01, kids=[N(0x01, b"anon\x00")], tm="KSI_Header")
+    mac = N(0x1f, bytes([1]) + bytes(32))
+    err = N(0x03, kids=[N(0x04, b"\x01\x01")], tm="KSI_ErrorPdu")
+    conf = N(0x04, kids=[N(0x01, b"\x11")], tm="KSI_AggregationConf")
+    ack = N(0x05, kids=[], tm="KSI_AggregationAck")
+    for op, ver, root, tm in (("aggr", 2, 0x221, "KSI_AggregationRespPdu"), ("ext", 2, 0x321, "KSI_ExtendRespPdu")):
+        pool = [hdr, err, conf, mac] + ([ack] if op == "aggr" else [])
+        if op == "ext":
+            pool[2] = N(0x04, kids=[N(0x04, b"\x05")], tm="KSI_ExtendConf")
+        for r in range(0, len(pool) + 1):
+            for sub in itertools.permutations(pool, r):
+                yield "%s %d %s" % (op, ver, hx(N(root, kids=list(sub), tm=tm).enc()))
+        base = [hdr, err, mac]
+        for pos in range(len(base) + 1):
+            for nc in (0, 1):
+                for tag in (0x06, 0x1e, 0x20, 0x801):
+                    kids = base[:pos] + [N(tag, b"\x01", nc=nc)] + base[pos:]
+                    yield "%s %d %s" % (op, ver, hx(N(root, kids=kids, tm=tm).enc()))
+            for k in base:
+                for nc in (0, 1):
+                    d = k.clone(); d.nc = nc
+                    kids = base[:pos] + [d] + base[pos:]
+                    yield "%s %d %s" % (op, ver, hx(N(root, kids=kids, tm=tm).enc()))
+    # the same for the request PDUs
+    req = N(0x02, kids=[N(0x01, b"\x07"), N(0x02, bytes([1]) + bytes(32))], tm="KSI_AggregationReq_v2")
+    for sub in itertools.permutations([hdr, req, mac, N(0x05, kids=[], tm="KSI_AggregationAckReq")]):
+        yield "aggr 2 %s" % hx(N(0x220, kids=list(sub), tm="KSI_AggregationReqPdu").enc())
+    ereq = N(0x02, kids=[N(0x01, b"\x07"), N(0x02, b"\x55")], tm="KSI_ExtendReq")
+    for sub in itertools.permutations([hdr, ereq, mac]):
+        yield "ext 2 %s" % hx(N(0x320, kids=list(sub), tm="KSI_ExtendReqPdu").enc())
+    # publications file: every order of header / certificate / publication / signature records (+ an unknown one)
+    ders = der_blobs()
+    if ders["cert"] and ders["pkiSig"]:
+        good = " ".join(hx(b) for b in ders["cert"] + ders["pkiSig"])
+        ph = N(0x701, kids=[N(0x01, b"\x02"), N(0x02, b"\x05")], tm="KSI_PublicationsHeader")
+        cr = N(0x702, kids=[N(0x01, b"\x01\x02"), N(0x02, ders["cert"][0])], tm="KSI_CertificateRecord")
+        pr = N(0x703, kids=[N(0x10, kids=[N(0x02, b"\x05"), N(0x04, bytes([1]) + bytes(32))], tm="KSI_PublicationData")], tm="KSI_PublicationRecord")
+        sg = N(0x704, ders["pkiSig"][0])
+        un = N(0x7ff, b"\x01", nc=1)
+        uc = N(0x7fe, b"\x01", nc=0)
+        pool = [ph, cr, pr, sg]
+        for r in range(0, 5):
+            for sub in itertools.permutations(pool, r):
+                yield "pub %s %s" % (hx(MAGIC + b"".join(k.enc() for k in sub)), good)
+        for extra in (un, uc, cr, pr, ph, sg):
+            for pos in range(5):
+                kids = pool[:pos] + [extra] + pool[pos:]
+                yield "pub %s %s" % (hx(MAGIC + b"".join(k.enc() for k in kids)), good)
+        yield "pub %s %s" % (hx(MAGIC + b"".join(k.enc() for k in [ph, cr, cr, pr, pr, sg])), good)
+
+
 def trivial(cls):
     return cls.endswith(":256") or cls.endswith(":?")
 
@@ -402,10 +506,52 @@ def trivial(cls):
 CONFIG = Config()
 CONFIG.pid = "C10"
 CONFIG.props_module = "KsiVerif.Props.C10"
-CONFIG.required_theorems = []
+CONFIG.required_theorems = [
+    "extract_iff_schema", "unknown_critical_rejected", "unknown_noncritical_ignored", "nothing_known_after_last",
+    "nothing_known_before_first", "single_valued_once", "exclusive_group0_once", "fixed_order_sorted", "mandatory_present",
+    "tables_are_the_reference_schema", "tables_within_model", "shared_fields_are_lists", "v2_pdu_header_first_mac_last",
+    "pubfile_sections_in_order", "integer_minimal_64bit", "imprint_known_algorithm_and_length", "legacy_id_well_formed",
+    "string_well_formed", "string_nonempty", "scalar_values", "composite_value", "templateParse_iff"]
 CONFIG.translators = [tables.gen_templates, tables.gen_hashalgs]
-CONFIG.engines = [Engine("c10", ["exec_c10.c"], "drv_c10", gen, trivial=trivial)]
-CONFIG.rule = ""
-CONFIG.trusted_base = []
-CONFIG.assumptions = []
+def gen_all(rng, tier):
+    yield from gen_positions(rng, tier)
+    yield from gen_values(rng, tier)
+    yield from gen(rng, tier)
+
+
+CONFIG.engines = [Engine("c10", ["exec_c10.c"], "drv_c10", gen_all, trivial=trivial)]
+CONFIG.rule = ("op lines from one PRNG (VERIF_SEED). (1) positional rules exhaustively on small containers: every permutation of every "
+               "subset of {header, payloads, MAC} of v2 aggregation / extension response PDUs, an unknown element (4 tags, critical and not) "
+               "and a repetition of every element (flagged critical and not) at every position; every order of every subset of the "
+               "publications-file sections, each extra record at each position. (2) value parsers at their boundaries: legacy ids with every "
+               "length octet and a changed octet at every position; integers of 0..10 octets with leading 00/01/80/ff; imprints for all 256 "
+               "algorithm ids x digest lengths around the right one; strings with every lead octet x 0..4 continuation / non-continuation octets. "
+               "(3) schema-directed random trees: a valid tree for each of the 8 roots (PDU v1/v2 request/response, signature, publications file) "
+               "and for each of the 34 constructible tables, then mutated at a random node: drop / repeat (any flags) / unknown critical or "
+               "non-critical / move / add a row of an exclusive group / malformed value per kind / flags / untiled content / emptied composite; "
+               "the other PDU version and family. (4) the repository's sample signatures and publications files with an unknown element at "
+               "every top-level position and inside a random part. Through KSI_AggregationPdu_parse, KSI_ExtendPdu_parse (context set to v1 or "
+               "v2), KSI_Signature_parseWithPolicy(EMPTY)+serialize, KSI_PublicationsFile_parse, KSI_TlvTemplate_parse. Compared: status and a "
+               "dump of every field of the parsed object (through the tables' own getters). Distinct by op line.")
+CONFIG.trusted_base = [
+    "Lean 4.33.0 kernel; axioms propext, Classical.choice, Quot.sound only (audited per theorem each run)",
+    "template tables: regenerated every run from the built library (translator/dump.c walks the tables; harness/tmplinfo.h names the "
+    "37 tables and maps value-parser function pointers to kinds; both fail loudly on an unknown table / parser / flag combination)",
+    "engine and value-parser model KsiVerif.Model.Template hand-written from tlv_template.c:613-799, types_base.c, hash.c, hashchain.c:724-823, "
+    "types.c, signature.c, signature_builder.c:1028-1059, publicationsfile.c:67-240; tied by harness/exec_c10.c (ASan+UBSan)",
+    "schema KsiVerif.Spec.Schema (conforms, Utf8Seq, WellFormedString) and KsiVerif.Spec.SchemaRef (the tables at the pinned commit) are read by humans",
+    "OpenSSL's acceptance of a certificate / PKCS#7 blob is a parameter (derOK); the generator only uses blobs from the repository's test files or short garbage"]
+CONFIG.assumptions = [
+    "rows flagged MORE_DEFS (several rows per tag) are not modelled; tables_within_model proves none exists in the current tables",
+    "what follows parsing for a signature (verification verdict unchanged by an ignored element) is C01/C11 territory; here: same field values, byte-exact re-serialization"]
 CONFIG.design_ref = "DESIGN.md section 4, C10"
+CONFIG.technique = "Lean 4 refinement proof (template engine = declarative schema, for every table and value parser) + regenerated tables + differential correspondence on all entry points"
+CONFIG.level_text = ("Kernel-checked for every table, every value parser and every element list: extractGenerator accepts exactly the lists that conform to the "
+                     "declarative schema (unknown => non-critical; single-valued once; exclusive groups; FIRST / LAST / fixed order; mandatory rows and groups) "
+                     "and returns the known values by row; a critical unknown element is refused and a non-critical one changes nothing, at any position; "
+                     "integers = minimal big-endian <= 8 octets, strings = NUL-terminated well-formed lead/continuation sequences, imprints = known algorithm + "
+                     "its length, legacy ids = 03 00 n ... zero padded; the current tables are the reference schema, have header FIRST / MAC LAST in v2 PDUs "
+                     "and the four publications-file sections in fixed order. Tied to the code by regenerated tables and ~2*10^4 differential cases per run.")
+CONFIG.level_note = ("Trusted: Lean kernel + the three standard axioms; the table walker and the hand-written model with its differential tie; the "
+                     "reference schema is the pinned tables (the property does not list the schema). Deep nesting is proved one level at a time "
+                     "(composite_value / templateParse_iff); certificate / PKCS#7 parsing is a parameter.")
